@@ -83,9 +83,17 @@ def make_pool(rng):
             step = dict(kind='scalar', value=float(10.0 ** rng.uniform(-5, -1)))
         else:
             step = dict(kind=str(rng.choice(['min', 'max'])), opts=_step_opts(rng))
+        first = None
         for j in range(2):
             method = str(rng.choice(ALL_METHODS if step['kind'] in ('default', 'scalar') else ALL_METHODS))
             n = int(rng.integers(1, 3)) if method == 'multicomplex' else int(rng.integers(1, 5))
+            if j == 1 and step['kind'] in ('min', 'max'):
+                # the twin configuration takes its steps from the other generator class (exact vs inexact steps) with the same
+                # options, and in half of the cases has the same (method, n): both then want the same rule-cache entry
+                step = dict(kind='max' if step['kind'] == 'min' else 'min', opts=dict(step['opts']))
+                if rng.random() < 0.5 and first is not None:
+                    method, n = first
+            first = (method, n)
             pts = []
             psize = 0 if rng.random() < 0.6 else int(rng.integers(1, 4))      # both points of one shape (in-place updates)
             for _ in range(2):
@@ -125,7 +133,7 @@ def _step_opts(rng):
     if rng.random() < 0.6:
         o['base_step'] = float(10.0 ** rng.uniform(-5, -1))
     if rng.random() < 0.5:
-        o['step_ratio'] = float(rng.choice([1.6, 2.0, 3.0, 4.0]))
+        o['step_ratio'] = float(rng.choice([1.6, 2.0, 3.0, 4.0, 1.2, 1.3, 1.7]))      # (1.2, 1.3, 1.7: not invariant under make_exact)
     if rng.random() < 0.5:
         o['num_steps'] = int(rng.integers(8, 20))
     if rng.random() < 0.3:
@@ -385,14 +393,28 @@ def run_case(case, ctx):
                 if pool[i]['step']['kind'] not in ('min', 'max'):
                     continue
                 gen = build_step(nd, pool[i]['step'])
-                objs[i], objs[j] = build(nd, pool[i], gen), build(nd, pool[j], gen)
+                twin = dict(pool[j], step=pool[i]['step'])        # configuration j on i's generator (its own is of the other class)
+                oi, oj = build(nd, pool[i], gen), build(nd, twin, gen)
+                objs[i] = oi
                 for (q, k) in ((i, 0), (j, 0), (i, 1), (j, 1), (i, 0)):
-                    got = call(objs[q], pool[q]['points'][k])
                     ctx.count('shared_generator_calls')
                     ctx.count('history_calls_compared')
-                    if not _compare(ctx, 'shared_step_generator', q, k, got, extra=dict(ops=case['ops'])):
-                        return
-                    last_point[q], last_result[q] = k, got
+                    if q == i:
+                        got = call(oi, pool[i]['points'][k])
+                        if not _compare(ctx, 'shared_step_generator', i, k, got, extra=dict(ops=case['ops'])):
+                            return
+                        last_point[i], last_result[i] = k, got
+                    else:
+                        got = call(oj, twin['points'][k])
+                        tkey = ('share_twin', j, k)
+                        if tkey not in _S['refs']:
+                            _S['refs'][tkey] = fresh_reference(twin, k)
+                            ctx.count('fresh_interpreter_references')
+                        if got != _S['refs'][tkey]:
+                            ctx.reject('result_differs_from_fresh_interpreter_evaluation', observed=got, expected=_S['refs'][tkey],
+                                       detail=dict(where='shared_step_generator', config=twin, point=twin['points'][k],
+                                                   extra=dict(ops=case['ops'])), where='shared_step_generator')
+                            return
                 # ... and a third object on the same generator instance: configuration i with another order (same method and
                 # n: whatever the generator remembers per (method, n) must not be served to a different order)
                 other = [o for o in (1, 2, 3, 4, 6, 8) if o != pool[i]['order']][(i + len(case['ops'])) % 5]
